@@ -6,6 +6,7 @@ import (
 	"context"
 	"encoding/json"
 	"fmt"
+	"math"
 	"net/http"
 	"reflect"
 	"strings"
@@ -208,6 +209,11 @@ func (w *World) handler(ms MethodSpec) any {
 			errV = reflect.ValueOf(jsonrpc.Err(jsonrpc.InternalError, nil))
 		case "nilres", "typednil":
 			// zero values: untyped nil inside `any`, resp. a nil *int
+		case "unmarshalable":
+			res = reflect.New(resType).Elem()
+			res.Set(reflect.ValueOf(math.NaN())) // json.Marshal: unsupported value
+		case "panic":
+			panic("verif: handler failure")
 		case "both":
 			echo()
 			errV = reflect.ValueOf(&jsonrpc.Error{Code: 7, Message: "both"})
@@ -281,6 +287,20 @@ func fixedWorld(batchDisabled bool, pool int) WorldSpec {
 		{Name: "nilres", Beh: "nilres", Params: []ParamSpec{P("x", true, "int")}},
 		{Name: "typednil", Beh: "typednil"},
 		{Name: "both", Beh: "both", Params: []ParamSpec{P("x", true, "int")}},
+	}}
+}
+
+// faultyWorld: handlers that return an unmarshallable value or panic, next to well-behaved ones
+func faultyWorld(pool int) WorldSpec {
+	P := func(n string, opt bool, ty string) ParamSpec { return ParamSpec{n, opt, ty} }
+	return WorldSpec{Pool: pool, Methods: []MethodSpec{
+		{Name: "noargs", Beh: "echo"},
+		{Name: "echo", Beh: "echo", Ctx: true, Params: []ParamSpec{P("a", false, "any"), P("b", true, "ptrInt")}},
+		{Name: "nan", Beh: "unmarshalable", Params: []ParamSpec{P("x", true, "int")}},
+		{Name: "nanhdr", Beh: "unmarshalable", Ctx: true, Hdr: true},
+		{Name: "boom", Beh: "panic", Params: []ParamSpec{P("x", true, "raw")}},
+		{Name: "boomctx", Beh: "panic", Ctx: true},
+		{Name: "fail", Beh: "fail", Params: []ParamSpec{P("data", true, "raw")}},
 	}}
 }
 
